@@ -22,6 +22,7 @@ import (
 
 	"verif/internal/fw"
 	"verif/internal/gen"
+	"verif/internal/rio"
 	"verif/internal/strace"
 )
 
@@ -85,7 +86,7 @@ func e2Session(args []string) int {
 		nops := 40 + r.Intn(110)
 		if *big {
 			o.Memstore = 16 << 20
-			nops = 50 + r.Intn(30)
+			nops = 90 + r.Intn(40)
 		}
 		ctl.mark("SESSION %d %s", s, o.String())
 		ctl.mark("PHASE open-begin")
@@ -283,8 +284,8 @@ type e2State struct {
 	fatal    string
 	ended    bool
 	// async bookkeeping: number of ops acknowledged when the most recent WAL file was created
-	ackedCount   int
-	ackedAtWal   int
+	ackedCount      int
+	ackedAtWal      int
 	opErrUnexpected []string
 }
 
@@ -422,7 +423,7 @@ type e2Job struct {
 	inflight string
 	listing  []string
 	// async: admissible prefixes (each a model) — expectA is then the full-ack model and prefixes holds all models p=L..n
-	prefixes []map[string]*string
+	prefixes  []map[string]*string
 	minPrefix int
 }
 
@@ -530,21 +531,22 @@ func e2Judge(job e2Job, keys []string, rbuf, wbuf uint64, hashVals bool, c *fw.C
 
 type e2Summary struct {
 	mutations, images, distinct, judged int
-	byPhase                          map[string]int
-	verdicts                         map[string]*e2Verdict
-	verdictCount                     map[string]int
-	inconclusive                     []string
-	problems                         []string
-	ops                              int
-	fidelity                         []string
-	keys                             []string
+	byPhase                             map[string]int
+	verdicts                            map[string]*e2Verdict
+	verdictCount                        map[string]int
+	inconclusive                        []string
+	problems                            []string
+	ops                                 int
+	fidelity                            []string
+	keys                                []string
+	cutWal                              int // images whose newest WAL file ends inside a record
 }
 
 type e2Config struct {
-	mode     string // sync | async | c17
-	big      bool
-	seed     int64
-	nkeys    int
+	mode      string // sync | async | c17
+	big       bool
+	seed      int64
+	nkeys     int
 	maxImages int // 0 = all
 }
 
@@ -684,6 +686,9 @@ func e2RunSession(c *fw.Case, cfg e2Config) *e2Summary {
 		if cfg.maxImages > 0 && sum.distinct > cfg.maxImages {
 			return
 		}
+		if cfg.mode == "async" && e2NewestWalIsCut(rp) {
+			sum.cutWal++
+		}
 		imgNo++
 		d := filepath.Join(work, fmt.Sprintf("img-%d", imgNo))
 		if err := rp.Materialise(d, extra); err != nil {
@@ -755,4 +760,25 @@ func e2RunSession(c *fw.Case, cfg e2Config) *e2Summary {
 	close(jobs)
 	wg.Wait()
 	return sum
+}
+
+// e2NewestWalIsCut tells (with the harness's own layout parser) whether the newest WAL file of the current
+// image ends inside a record.
+func e2NewestWalIsCut(rp *strace.Replayer) bool {
+	newest := ""
+	for _, l := range rp.Listing() {
+		name := strings.Fields(l)[0]
+		if strings.HasPrefix(name, "wal/") && strings.HasSuffix(name, ".wal") && name > newest {
+			newest = name
+		}
+	}
+	if newest == "" {
+		return false
+	}
+	data := rp.FileData(filepath.Join(rp.Root, newest))
+	if len(data) < 8 {
+		return len(data) > 0
+	}
+	pf, err := rio.Parse(data)
+	return err == nil && pf.Tail != len(data)
 }
